@@ -86,6 +86,7 @@ package hackpadfs
 
 //@ func (fs *subFS) Open(name string) (f File, err error)
 //@   props C07 C04 C05
+//@   modifies world()
 //@   requires fs != nil
 //@   ensures "gate" implies(!VP(name), f == nil && isPathError(err) && pathOf(err) == name && errIs(err, ErrInvalid) && world() == old(world()))
 //@   ensures "delegates" implies(VP(name), f == old(ret("hackpadfs.(FS).Open", 0, fs.rootFS, pjoin(fs.basePath, name))) &&
